@@ -241,6 +241,9 @@ def run_tab_cases(build, cases, V, want_spec=True):
                             what="private property combination only partly withdrawn from the shared properties")
             c["tabs"] = None
             continue
+        if "timeout" in r and c.get("stream") == "P":
+            c["tabs"] = None
+            continue  # a statement through the endpoint without answer within the pool's limit (load): termination is C10's business
         if "panic" in r or "exit" in r or "timeout" in r:
             if kind in ("panic", "fatal"):
                 continue  # predicted by the model: outside the domain of the export
